@@ -636,7 +636,7 @@ def gen_case(ctx):
         if f in ('sqrt', 'log') and rng.random() < 0.5:
             lo, hi = (-0.8, 2.0)      # negative arguments -> NaN -> undefined
         return {'kind': 'func', 'a': gen_corr(rng, lo=lo, hi=hi), 'f': f}
-    m = rng.choice(['roll', 'reverse', 'thin', 'symmetric', 'anti_symmetric', 'T_symmetry', 'item', 'trace', 'matrix_symmetric', 'projected', 'projected', 'projected', 'hankel', 'hankel', 'repr', 'ctor', 'real', 'imag', 'getitem'])
+    m = rng.choice(['roll', 'roll', 'reverse', 'thin', 'symmetric', 'anti_symmetric', 'T_symmetry', 'item', 'trace', 'matrix_symmetric', 'projected', 'projected', 'projected', 'hankel', 'hankel', 'repr', 'ctor', 'real', 'imag', 'getitem'])
     if m in ('real', 'imag'):
         cp = rng.random() < 0.6
         a = gen_corr(rng, cplx=cp)
@@ -664,7 +664,8 @@ def gen_case(ctx):
     case = {'kind': 'index', 'm': m, 'a': a, 'args': {}}
     iform = rng.choice([None, None, 'int64', 'uint8', 'uint64', 'int8', 'uint16', 'int32'])
     if m == 'roll':
-        case['args'] = {'dt': rng.choice([0, 1, -1, 2, 3, T - 1, T, -T, T + 1, -(T + 2), 3 * T + 1, rng.randint(-40, 40)]), 'iform': iform}
+        case['args'] = {'dt': rng.choice([0, 1, -1, 2, 3, T - 1, T, -T, T + 1, -(T + 2), 3 * T + 1, rng.randint(-40, 40), rng.randint(1, 40)]),
+                        'iform': rng.choice([None, 'int64', 'uint8', 'uint64', 'uint16', 'uint32', 'int8', 'int32'])}
     elif m == 'thin':
         case['args'] = {'spacing': rng.choice([1, 2, 3, 4]), 'offset': rng.choice([0, 1, 2, 3, -1]), 'iform': iform}
     elif m == 'T_symmetry':
